@@ -1,126 +1,168 @@
 import PqModel.Seek
 import PqModel.SliceRepeated
+import PqModel.RowsSeek
 
 /-! # C08 — Seeking to a row then reading equals skipping to that row sequentially
 
 Page-granularity state machine of `FilePages` (see `PqModel/Seek.lean`).
-`stepFixed` mirrors the repaired code (proposed_fixes/F11.diff), `stepAsis` the code as it stands
-before the repair; `SpecOK`/`RunOK` is the reference reader (a row counter) written from the
+`stepFixed` mirrors the repaired code (the `fix:` commits on FilePages), `stepAsis` the code
+before the repairs; `SpecOK`/`RunOK` is the reference reader (a row counter) written from the
 property statement. `abs` is the abstraction map of the property: the suffix of the chunk's rows
 the reader will still deliver. -/
 namespace PqModel.Props.C08
 open PqModel.Seek
 
-/-- abstraction: the rows (any payload `α`) the reader in state `s` will still deliver -/
-def abs {α} (c : Chunk) (R : List α) (s : St) : List α := R.drop (next c.rows s)
+/-- abstraction: the rows (any payload `α`) the reader in state `s` will still deliver; `none`
+    between a failed read (checksum mismatch) and the next seek -/
+def abs {α} (c : Chunk) (R : List α) (s : St) : Option (List α) := (npos c.rows s).map R.drop
 
 /-- **C08 (repaired mirror, every reachable state).** For every state reachable by any finite
-    history of seeks (forward, backward, repeated, to the end, beyond the end) / reads / lazy
-    loading of the offset index, with or without offset index and dictionary page:
-    * `seek k` either succeeds and then the reader will deliver exactly `R.drop k`, or it is refused,
-      which happens only beyond the last row and leaves the state unchanged;
-    * `readPage` pops a non-empty prefix of `abs` (the rest of the page holding the next row, cut
-      from the right page `p`), or reports EOF exactly when `abs` is empty;
+    history of seeks (forward, backward, repeated, to the end, beyond the end) / reads (failing
+    on pages whose checksum does not match) / lazy loading of the offset index, with or without
+    offset index and dictionary page:
+    * `seek k` either succeeds and then the reader will deliver exactly `R.drop k` — also right
+      after a failed read —, or it is refused, which happens only beyond the last row and leaves the
+      state unchanged;
+    * from a defined position `readPage` pops a non-empty prefix of `abs` (the rest of the page
+      holding the next row, cut from the right page `p`, which is not a corrupted one), reports
+      EOF exactly when `abs` is empty, or fails — only if a corrupted page starts at or before the
+      next row — and then the position is undefined; while undefined it stays undefined;
     * loading the offset index does not move the reader. -/
 theorem seek_refines {α} (c : Chunk) (hpos : ∀ r ∈ c.rows, 0 < r) (R : List α) (hR : R.length = total c)
     (hi : Bool) (s : St) (h : ReachFixed c hi s) :
-    (∀ k, ((stepFixed c s (.seek k)).2 = .ok ∧ abs c R (stepFixed c s (.seek k)).1 = R.drop k) ∨
+    (∀ k, ((stepFixed c s (.seek k)).2 = .ok ∧ abs c R (stepFixed c s (.seek k)).1 = some (R.drop k)) ∨
           ((stepFixed c s (.seek k)).2 = .err ∧ (stepFixed c s (.seek k)).1 = s ∧ R.length < k)) ∧
-    (match (stepFixed c s .readPage).2 with
-      | .page p st len => 0 < len ∧ st + len ≤ R.length ∧
-          abs c R s = (R.drop st).take len ++ abs c R (stepFixed c s .readPage).1 ∧
+    (match abs c R s, (stepFixed c s .readPage).2 with
+      | some rest, .page p st len => 0 < len ∧ st + len ≤ R.length ∧ p ∉ c.bad ∧
+          (∃ rest', abs c R (stepFixed c s .readPage).1 = some rest' ∧ rest = (R.drop st).take len ++ rest') ∧
           firstRow c.rows p ≤ st ∧ st + len = firstRow c.rows (p + 1)
-      | .eof => abs c R s = [] ∧ abs c R (stepFixed c s .readPage).1 = []
-      | _ => False) ∧
+      | some rest, .eof => rest = [] ∧ abs c R (stepFixed c s .readPage).1 = some []
+      | some _, .corrupt => abs c R (stepFixed c s .readPage).1 = none ∧ c.bad ≠ []
+      | none, _ => abs c R (stepFixed c s .readPage).1 = none
+      | _, _ => False) ∧
     abs c R (stepFixed c s .loadIndex).1 = abs c R s := by
   have hinv := reachFixed_inv c hpos hi s h
+  have htot : total c = c.rows.sum := rfl
   refine ⟨?_, ?_, rfl⟩
   · intro k
-    rcases (seekFixed_spec c s k hinv).2 with ⟨h1, h2⟩ | ⟨h1, h2, h3⟩
-    · exact Or.inl ⟨h1, by show R.drop (next c.rows (seekFixed c s k).1) = R.drop k; rw [h2]⟩
+    rcases (seekFixed_spec c s k hinv).2 with ⟨h1, h2, h3⟩ | ⟨h1, h2, h3⟩
+    · refine Or.inl ⟨h1, ?_⟩
+      show (npos c.rows (seekFixed c s k).1).map R.drop = some (R.drop k)
+      rw [npos_of_lost_false _ _ h2, h3]; rfl
     · exact Or.inr ⟨h1, h2, by omega⟩
-  · have hr := readPage_spec c.rows hpos s hinv.1
-    obtain ⟨_, _, h3⟩ := hr
-    show match (readPage c.rows s).2 with
-      | .page p st len => 0 < len ∧ st + len ≤ R.length ∧
-          abs c R s = (R.drop st).take len ++ abs c R (readPage c.rows s).1 ∧
+  · have hr := readPage_spec c.rows c.bad hpos s hinv.1
+    show match abs c R s, (readPage c.rows c.bad s).2 with
+      | some rest, .page p st len => 0 < len ∧ st + len ≤ R.length ∧ p ∉ c.bad ∧
+          (∃ rest', abs c R (readPage c.rows c.bad s).1 = some rest' ∧ rest = (R.drop st).take len ++ rest') ∧
           firstRow c.rows p ≤ st ∧ st + len = firstRow c.rows (p + 1)
-      | .eof => abs c R s = [] ∧ abs c R (readPage c.rows s).1 = []
-      | _ => False
-    cases ho : (readPage c.rows s).2 with
-    | ok => simp [ho] at h3
-    | err => simp [ho] at h3
-    | eof =>
-      simp only [ho] at h3
-      simp only [abs]
-      have htot : total c = c.rows.sum := rfl
-      exact ⟨List.drop_eq_nil_of_le (by omega), List.drop_eq_nil_of_le (by omega)⟩
-    | page p st len =>
-      simp only [ho] at h3
-      obtain ⟨e1, e2, e3, e4, e5, e6⟩ := h3
-      have htot : total c = c.rows.sum := rfl
-      refine ⟨e2, by omega, ?_, e5, e6⟩
-      simp only [abs]
-      rw [e3, ← e1, ← List.drop_drop, List.take_append_drop]
+      | some rest, .eof => rest = [] ∧ abs c R (readPage c.rows c.bad s).1 = some []
+      | some _, .corrupt => abs c R (readPage c.rows c.bad s).1 = none ∧ c.bad ≠ []
+      | none, _ => abs c R (readPage c.rows c.bad s).1 = none
+      | _, _ => False
+    cases hl : s.lost with
+    | true =>
+      rw [hl] at hr
+      have hlost := readOK_lost _ _ _ _ hr
+      have e1 : abs c R s = none := by simp [abs, npos, hl]
+      have e2 : abs c R (readPage c.rows c.bad s).1 = none := by simp [abs, npos, hlost]
+      rw [e1]
+      exact e2
+    | false =>
+      rw [hl] at hr
+      obtain ⟨_, _, h3⟩ := hr
+      have e1 : abs c R s = some (R.drop (next c.rows s)) := by simp [abs, npos, hl]
+      rw [e1]
+      cases ho : (readPage c.rows c.bad s).2 with
+      | ok => simp [ho] at h3
+      | err => simp [ho] at h3
+      | corrupt =>
+        simp only [ho] at h3
+        obtain ⟨hl', q, hq, _, _⟩ := h3
+        refine ⟨by simp [abs, npos, hl'], ?_⟩
+        intro hnil; simp [hnil] at hq
+      | eof =>
+        simp only [ho] at h3
+        obtain ⟨hl', h4, h5⟩ := h3
+        refine ⟨List.drop_eq_nil_of_le (by omega), ?_⟩
+        simp only [abs, npos, hl', h5]
+        simp
+        omega
+      | page p st len =>
+        simp only [ho] at h3
+        obtain ⟨hl', eb, e1', e2, e3, e4, e5, e6⟩ := h3
+        refine ⟨e2, by omega, eb, ⟨R.drop (st + len), ?_, ?_⟩, e5, e6⟩
+        · simp [abs, npos, hl', e3]
+        · rw [← e1', ← List.drop_drop, List.take_append_drop]
 
 /-- **C08 for whole histories (repaired mirror).** The outputs of every history, from a fresh
     reader, are a run of the reference reader started before row 0: every page returned is the
-    rest of the page holding the reader's current row, EOF comes exactly at the end. -/
+    rest of the page holding the reader's current row and not a corrupted one, EOF comes exactly
+    at the end, a failure only where a corrupted page is in the way, and the first read after a
+    seek that follows a failure is again exact. -/
 theorem history_refines (c : Chunk) (hpos : ∀ r ∈ c.rows, 0 < r) (hi : Bool) (ops : List Op) :
-    RunOK c 0 ops (outs (stepFixed c) (init hi) ops) := by
-  have := run_refines c (stepFixed c) (SInv c.rows) (fun _ _ => true)
+    RunOK c (some 0) ops (outs (stepFixed c) (init hi) ops) := by
+  have := run_refines c (stepFixed c) (SInv c) (fun _ _ => true)
     (fun s op hI _ => stepFixed_inv c hpos s op hI)
     (fun s op hI _ => stepFixed_spec c hpos s op hI)
-    ops (init hi) (init_inv c.rows hi) (allOk_true _ ops _)
-  rwa [next_init] at this
+    ops (init hi) (init_inv c hi) (allOk_true _ ops _)
+  rwa [npos_init] at this
 
 /-- non-vacuity: ten pages of ten rows satisfy the hypotheses, and a history that seeks away from
-    and back into the cached page delivers the right pages -/
+    and back into the cached page delivers the right pages; with a corrupted page the retry seek
+    fails again instead of returning the next page -/
 example : ∀ r ∈ c10.rows, 0 < r := by decide
 example : outs (stepFixed c10) (init true) histA =
     [.ok, .page 2 20 10, .ok, .ok, .page 2 25 5, .page 3 30 10] := by decide
 example : outs (stepFixed c10) (init true) [.seek 99, .readPage, .readPage, .seek 100, .readPage, .seek 0, .readPage] =
     [.ok, .page 9 99 1, .eof, .ok, .eof, .ok, .page 0 0 10] := by decide
+example : outs (stepFixed c3bad) (init true) (histD ++ [.seek 200, .readPage, .seek 99, .readPage]) =
+    [.page 0 0 100, .corrupt, .ok, .corrupt, .ok, .page 2 200 100, .ok, .page 0 99 1] := by decide
 
-/-- **F11 on the mirror of the unchanged code (negation witnesses).** The histories
+/-- **The findings on the mirror of the unchanged code (negation witnesses).** The histories
     A (`seek 20, read, seek 70, seek 25, read, read` → rows 25..29 then 70..),
-    B (`seek 20, read, seek 25, seek 72, read` → rows 22..29) and
-    C (no index, dictionary: `seek 5, read, load offset index, seek 12, read` → rows 2..9)
+    B (`seek 20, read, seek 25, seek 72, read` → rows 22..29),
+    C (no index, dictionary: `seek 5, read, load offset index, seek 12, read` → rows 2..9) and
+    D (page 1 corrupted: `read, read (fails), seek 150, read` → rows 250..299 of page 2)
     are not runs of the reference reader. -/
 theorem asis_violates_stream_left_behind :
-    ¬ RunOK c10 0 histA (outs (stepAsis c10) (init true) histA) :=
-  fun h => absurd (runOK_check c10 0 _ _ h) (by decide)
+    ¬ RunOK c10 (some 0) histA (outs (stepAsis c10) (init true) histA) :=
+  fun h => absurd (runOK_check c10 _ _ _ h) (by decide)
 
 theorem asis_violates_stale_serve :
-    ¬ RunOK c10 0 histB (outs (stepAsis c10) (init true) histB) :=
-  fun h => absurd (runOK_check c10 0 _ _ h) (by decide)
+    ¬ RunOK c10 (some 0) histB (outs (stepAsis c10) (init true) histB) :=
+  fun h => absurd (runOK_check c10 _ _ _ h) (by decide)
 
 theorem asis_violates_lazy_index_dictionary :
-    ¬ RunOK c10d 0 histC (outs (stepAsis c10d) (init false) histC) :=
-  fun h => absurd (runOK_check c10d 0 _ _ h) (by decide)
+    ¬ RunOK c10d (some 0) histC (outs (stepAsis c10d) (init false) histC) :=
+  fun h => absurd (runOK_check c10d _ _ _ h) (by decide)
 
--- OPEN (false for the code as it stands, see the three witnesses above):
---   theorem asis_history_refines (c) (hpos) (hi) (ops) : RunOK c 0 ops (outs (stepAsis c) (init hi) ops)
+theorem asis_violates_seek_after_failed_read :
+    ¬ RunOK c3bad (some 0) histD (outs (stepAsis c3bad) (init true) histD) :=
+  fun h => absurd (runOK_check c3bad _ _ _ h) (by decide)
 
-/-- **C08 for the unchanged code, partial.** Histories that never seek (with an offset index)
-    into the page recorded as cached and never load the offset index lazily after the no-index
-    path ran on a chunk with a dictionary are runs of the reference reader. What is missing is
-    exactly the cached-page shortcut (F11). -/
+-- OPEN (false for the code before the repairs, see the four witnesses above):
+--   theorem asis_history_refines (c) (hpos) (hi) (ops) : RunOK c (some 0) ops (outs (stepAsis c) (init hi) ops)
+
+/-- **C08 for the code before the repairs, partial.** Histories that never seek after a failed
+    read, never seek (with an offset index) into the page recorded as cached and never load the
+    offset index lazily after the no-index path ran on a chunk with a dictionary are runs of the
+    reference reader. What is missing is exactly what the four repairs address. -/
 theorem asis_history_refines_partial (c : Chunk) (hpos : ∀ r ∈ c.rows, 0 < r) (hi : Bool) (ops : List Op)
     (hsafe : AllOk (stepAsis c) (safeOp c) (init hi) ops = true) :
-    RunOK c 0 ops (outs (stepAsis c) (init hi) ops) := by
+    RunOK c (some 0) ops (outs (stepAsis c) (init hi) ops) := by
   have := run_refines c (stepAsis c) (AInv c) (safeOp c)
     (fun s op hI hok => stepAsis_inv c hpos s op hI hok)
     (fun s op hI hok => stepAsis_spec c hpos s op hI hok)
     ops (init hi) (init_ainv c hi) hsafe
-  rwa [next_init] at this
+  rwa [npos_init] at this
 
 /-- non-vacuity of the partial theorem: a safe history with forward, backward and end seeks -/
 example : AllOk (stepAsis c10) (safeOp c10) (init true)
     [.seek 20, .readPage, .seek 70, .readPage, .seek 5, .readPage, .readPage, .seek 100, .readPage] = true := by decide
-/-- the F11 histories are exactly what the hypothesis excludes -/
+/-- the histories of the findings are exactly what the hypothesis excludes -/
 example : AllOk (stepAsis c10) (safeOp c10) (init true) histA = false := by decide
 example : AllOk (stepAsis c10d) (safeOp c10d) (init false) histC = false := by decide
+example : AllOk (stepAsis c3bad) (safeOp c3bad) (init true) histD = false := by decide
 
 /-- **slice_spec** (`repeatedPage.Slice`, used by `ReadPage` to cut the page a seek lands in):
     for a page made of well-formed rows (`0 :: levels without 0`), the index range computed by the
@@ -151,5 +193,24 @@ example : ∀ r ∈ [[0, 1, 1], [0], [0, 2]], RowWF r := by
   · exact ⟨[], rfl, by decide⟩
   · exact ⟨[2], rfl, by decide⟩
 example : sliceRepeated 2 [0, 1, 1, 0, 0, 2] [2, 2, 1, 0, 2, 2] 1 3 = (([0, 0, 2], [0, 2, 2]), (2, 4)) := by decide
+
+/-- **Row reader (`rowGroupRows`), repaired mirror.** Every history of SeekToRow / ReadRows /
+    Reset — with any of the reads failing in a column — is a run of the reference reader: a
+    read returns the rows at the reference position (after `Reset`: row 0, after `SeekToRow k`:
+    row `k`, also when `k` is where the reader believed to be), never misaligned columns, and
+    between a failed read and the next seek reads keep failing. -/
+theorem rows_history_refines (total : Nat) (ops : List RowsSeek.Op) :
+    RowsSeek.check total (some 0) ops (RowsSeek.outs (RowsSeek.stepFixed total) RowsSeek.init ops) = true :=
+  RowsSeek.fixed_refines total ops RowsSeek.init (some 0) RowsSeek.init_rel
+
+/-- the code before the repairs: `read 5, Reset, SeekToRow 5, read` returns rows 0..4 -/
+theorem rows_asis_violates_reset :
+    RowsSeek.check 100 (some 0) RowsSeek.histReset
+      (RowsSeek.outs (RowsSeek.stepAsis 100) RowsSeek.init RowsSeek.histReset) = false := by decide
+
+/-- the code before the repairs: a failed read, `SeekToRow rowIndex`, read returns misaligned columns -/
+theorem rows_asis_violates_failed_read :
+    RowsSeek.check 100 (some 0) RowsSeek.histFail
+      (RowsSeek.outs (RowsSeek.stepAsis 100) RowsSeek.init RowsSeek.histFail) = false := by decide
 
 end PqModel.Props.C08
